@@ -183,8 +183,15 @@ Announced(s) == CASE s.k = "insn"  -> InsnSize(s.op)
                   [] OTHER -> -1
 
 (* .ascii with chunks: quoted text [q |-> bytes] and <expr> chunks [e |-> expression] (one byte each) *)
+(* a quoted chunk [u |-> code points] holds non-ASCII text; a program that has one is assembled with the UTF-8 output charset, in
+   which such a character takes two bytes (code points 128..2047) *)
+Utf8(cp) == IF cp < 128 THEN << cp >> ELSE << 192 + (cp \div 64), 128 + (cp % 64) >>
+RECURSIVE Utf8Seq(_)
+Utf8Seq(cps) == IF cps = <<>> THEN <<>> ELSE Utf8(Head(cps)) \o Utf8Seq(Tail(cps))
 RECURSIVE ChunksLen(_)
-ChunksLen(cs) == IF cs = <<>> THEN 0 ELSE (IF "q" \in DOMAIN Head(cs) THEN Len(Head(cs).q) ELSE 1) + ChunksLen(Tail(cs))
+ChunksLen(cs) == IF cs = <<>> THEN 0
+                 ELSE (IF "q" \in DOMAIN Head(cs) THEN Len(Head(cs).q) ELSE IF "u" \in DOMAIN Head(cs) THEN Len(Utf8Seq(Head(cs).u) ) ELSE 1)
+                      + ChunksLen(Tail(cs))
 
 (* r = [st, v] ; address-dependent sizes need the base: in the symbolic pass they are "dep" *)
 SizeOf(env, i) ==
@@ -319,6 +326,7 @@ ItemBytes(env, sizes, i) ==
       [] s.k = "ascii" -> Plain(s.bs)
       [] s.k = "asciic" -> Cat([q \in DOMAIN s.cs |->
                                  IF "q" \in DOMAIN s.cs[q] THEN Plain(s.cs[q].q)
+                                 ELSE IF "u" \in DOMAIN s.cs[q] THEN Plain(Utf8Seq(s.cs[q].u))
                                  ELSE LET x == NumVal(env, s.cs[q].e, i) IN
                                       IF x.st = "err" THEN Bad(<<0>>, x.why = "cycle")
                                       ELSE IF x.c < 0 \/ x.c > 255 THEN Bad(<<0>>, FALSE) ELSE Plain(<< x.c >>)])
@@ -387,7 +395,8 @@ LayoutAlphabet ==
     DotSet(Bin("+", Dot, Num(5))), [k |-> "insert", len |-> 5], [k |-> "dword", es |-> << Num(66000), Num(-2) >>], Blkw(Num(2)), I1("sob", A),
     Rep(2, << I0("nop"), W(<< Dot >>) >>), Inc(1), Inc(2), W(<<>>), By(<<>>), [k |-> "dword", es |-> <<>>],
     Rep(2, << W(<< B >>), [k |-> "ascii", bs |-> <<72, 105>>] >>), Inc(4),
-    [k |-> "asciic", cs |-> << [q |-> <<97, 98, 99>>], [e |-> Sym("n")], [q |-> <<100, 101>>], [e |-> Sym("n")], [e |-> Bin("+", Sym("n"), Num(7))] >>] }
+    [k |-> "asciic", cs |-> << [q |-> <<97, 98, 99>>], [e |-> Sym("n")], [q |-> <<100, 101>>], [e |-> Sym("n")], [e |-> Bin("+", Sym("n"), Num(7))] >>],
+    [k |-> "asciic", cs |-> << [u |-> <<1078, 1091>>], [e |-> Sym("n")] >>] }
 RelocAlphabet ==       \* C09: even-sized statements; absolute (#a, @#b, .word a) and relative (a, br a) references
   { I0("nop"), I1("movi", A), I1("mova", B), I1("movr", A), I1("movr", B), I2("movrr", A, B), I2("movii", A, B),
     I2("movii", Bin("-", B, A), Bin("+", A, Num(2))), I1("clra", B), I1("br", A), I1("br", B), I1("sob", A),
@@ -419,7 +428,7 @@ OrderCoreAlphabet ==   \* C03: the core of OrderAlphabet, small enough for all p
   { Const("a", Bin("+", B, Num(1))), Const("b", Bin("*", Sym("c"), Num(2))), Const("c", Num(5)),
     Const("p", Bin("+", Sym("l"), Num(2))), Const("q", Bin("+", Sym("l"), Num(102))), Lab("l"),
     W(<< Bin("-", Sym("q"), Sym("p")) >>), W(<< A >>), W(<< Bin("*", Bin("+", A, Num(1)), B) >>), Blkb(Sym("c")), I1("movi", A), I0("nop"),
-    I1("movx", Bin("-", Sym("q"), Sym("p"))) }
+    I1("movx", Bin("-", Sym("q"), Sym("p"))), [k |-> "asciic", cs |-> << [u |-> <<1078, 1091>>], [e |-> Sym("c")], [e |-> Num(10)] >>] }
 
 ScopeAlphabet ==       \* C11: reused local and private names, all export forms, all orders
   { Lab("a"), LabX("a"), Lab("b"), Lab("1"), Lab("2"), Const("a", Num(7)), ConstX("a", Num(11)), Const("b", Num(13)),
@@ -481,7 +490,8 @@ ListIncFiles == << [name |-> "i1", body |-> << Lab("x"), I0("nop"), Lab("a"), Co
 LayoutCoreAlphabet ==  \* C02: the core of LayoutAlphabet, small enough for all programs of 4 statements
   { I0("nop"), I1("movi", A), I1("movr", A), W(<<A, Dot>>), W(<<>>), By(<< Num(1) >>), Blkb(Sym("n")), [k |-> "even"], [k |-> "align", e |-> Num(4)],
     [k |-> "ascii", bs |-> <<65, 66, 67>>], Lab("a"), Const("n", Num(3)), DotSet(Bin("+", Dot, Num(5))), Rep(2, << W(<< B >>), [k |-> "ascii", bs |-> <<72, 105>>] >>),
-    Inc(2), Lab("b"), [k |-> "asciic", cs |-> << [e |-> Sym("n")], [q |-> <<100, 101>>], [e |-> Num(10)] >>] }
+    Inc(2), Lab("b"), [k |-> "asciic", cs |-> << [e |-> Sym("n")], [q |-> <<100, 101>>], [e |-> Num(10)] >>],
+    [k |-> "asciic", cs |-> << [u |-> <<1078, 1091, 233>>], [e |-> Sym("n")] >>] }
 LayoutIncFiles == << [name |-> "i1", body |-> << Lab("x"), W(<< Sym("x"), Dot >>), By(<< Num(7) >>) >>],
                      [name |-> "i2", body |-> << W(<< Sym("y") >>), [k |-> "ascii", bs |-> <<79, 75, 33>>], Lab("y"), By(<< Bin("-", Dot, Sym("y")) >>) >>],
                      [name |-> "i3", body |-> << By(<< Num(3) >>), Inc(2), [k |-> "even"], Lab("z"), W(<< Sym("z"), Dot >>) >>],          \* include depth 2
